@@ -143,11 +143,25 @@ fn check(braille: &str, code: &str, fill: bool) {
     else { assert!(end == last && start <= first, "reported end is not the last highlighted cell / start lies after the first highlighted cell"); }
     core::mem::forget(out);
 }
+/// braille that also holds characters which are not 3-byte braille cells (text the rules could not translate, e.g. for an unsupported element):
+/// the reported cell positions are not meaningful then, but the call must still return and keep every character
+fn check_mixed(braille: &str, code: &str, fill: bool) {
+    let n = cells(braille);
+    let (out, start, end) = highlight_braille_chars(braille.to_string(), code, fill);
+    assert!(cells(&out) == n, "highlighting changed the number of characters");
+    assert!(start <= end, "start after end");
+    core::mem::forget(out);
+}
 HBC_CASES
 // str::find / rfind with the fn-item pattern `is_highlighted` (zero-sized): scan chars
 #[cfg(kani)] fn hl_find<P>(s: &str, _p: P) -> Option<usize> { let mut i = 0; for c in s.chars() { if is_highlighted(c) { return Some(i); } i += c.len_utf8(); } None }
 #[cfg(kani)] fn hl_rfind<P>(s: &str, _p: P) -> Option<usize> { let mut i = 0; let mut r = None; for c in s.chars() { if is_highlighted(c) { r = Some(i); } i += c.len_utf8(); } r }
 '''
+
+
+def api_mixed(vals=None, out=None):
+    res = mcprobe([("pref", "BrailleCode UEB"), ("mathml", "<math><mstack id='a'></mstack></math>"), ("braille", ""), "brpos", "nodeat 1", ("braille", "a")])
+    return any(r[0] == "PANIC" for r in res), {"script": "UEB, <mstack> (an element the braille rules answer with partly untranslated text); get_braille_position / get_navigation_node_from_braille_position / get_braille(id)", "results": res}
 
 
 def positions_lemma(run):
@@ -161,8 +175,12 @@ def positions_lemma(run):
     case_text = "\n".join('HARNESS(highlight_positions_%s, 16, [str::find => hl_find, str::rfind => hl_rfind, str::starts_with => stubs::starts_with]) {\n'
                           '    let fill = sym::bool();\n    let nemeth = sym::bool();\n    cover!(fill && nemeth, "fill range in Nemeth reachable");\n'
                           '    check("%s", if nemeth { "Nemeth" } else { "UEB" }, fill);\n}' % c for c in cases)
+    mixed = [("mixed_ascii_before", "\u2800\u2800\u2800\u2800a\u2800\u2800\u28cd\u280e"), ("mixed_ascii_first", "u\u283cko\u2800\u28cd\u280e\u28ac")]
+    case_text += "\n" + "\n".join('HARNESS(highlight_positions_%s, 16, [str::find => hl_find, str::rfind => hl_rfind, str::starts_with => stubs::starts_with]) {\n'
+                                   '    let fill = sym::bool();\n    let nemeth = sym::bool();\n    cover!(fill && nemeth, "fill range in Nemeth reachable");\n'
+                                   '    check_mixed("%s", if nemeth { "Nemeth" } else { "UEB" }, fill);\n}' % c for c in mixed)
     crate = _kr.Crate("c20pos", body.replace("HBC_CASES", case_text), native_deps=prelude.PHF_NATIVE_DEP)
-    run.bound("K-C20-e", "5 literal braille strings (nothing / first / end points / last cell highlighted / highlighted start after an indicator) x {Nemeth, UEB} x fill_range; one harness per string")
+    run.bound("K-C20-e", "5 literal braille strings (nothing / first / end points / last cell highlighted / highlighted start after an indicator) and 2 strings that also hold ASCII characters, x {Nemeth, UEB} x fill_range; one harness per string")
     run.assume("str::find / rfind with the `is_highlighted` function pattern stubbed by a char scan; starts_with stubbed; every path runs on a literal string")
 
     def api(vals, out):
@@ -174,4 +192,6 @@ def positions_lemma(run):
         return not (s <= e <= n), {"script": "UEB 2(invisible times)x: navigation node = the invisible operator (no cell of its own); get_braille_position", "braille_cells": n, "position": [s, e]}
     return crate, [dict(id="K-C20-e.highlight_positions." + c[0], harness="highlight_positions_" + c[0], api=api, role=lambda v, o: "position-outside-braille",
                         covers=["fill range in Nemeth reachable"],
-                        claim="start <= end <= number of cells; end = last cell with dots 7-8; nothing highlighted => (0, length)") for c in cases]
+                        claim="start <= end <= number of cells; end = last cell with dots 7-8; nothing highlighted => (0, length)") for c in cases] + \
+        [dict(id="K-C20-e.highlight_positions." + c[0], harness="highlight_positions_" + c[0], api=lambda v, o: api_mixed(), role=lambda v, o: "untranslated-text-in-braille-panic",
+              covers=["fill range in Nemeth reachable"], claim="no panic and no character lost when the braille also holds non-braille characters") for c in mixed]
